@@ -909,6 +909,13 @@ func canonCall(t *Term) *Term {
 		return nil
 	}
 	switch t.Name {
+	case "(*strings.Builder).WriteString", "(*bytes.Buffer).WriteString":
+		// writing a one-byte constant string is writing that byte
+		if a := arg(1); a != nil && a.Op == "const" {
+			if sv, ok := a.Str(); ok && len(sv) == 1 && sv[0] < 0x80 {
+				return &Term{Op: "call", Name: strings.Replace(t.Name, "WriteString", "WriteByte", 1), V: t.V, Args: []*Term{t.Args[0], mkConst(big.NewInt(int64(sv[0])), nil)}}
+			}
+		}
 	case "builtin.copy":
 		// copy moves min(len(dst), len(src)) elements: with both lengths constant the longer operand is cut to that
 		if d, sr := arg(0), arg(1); d != nil && sr != nil {
